@@ -2247,6 +2247,22 @@ static program_t *epilog ()
   total_prog_block_size += prog->total_size;
   total_num_prog_blocks++;
 
+  {
+    /* newest modification time of everything this program was built from */
+    struct stat st;
+    char *inc = mem_block[A_INCLUDES].block, *inc_end = inc + mem_block[A_INCLUDES].current_size;
+
+    prog->newest_source = 0;
+    if (stat (prog->name, &st) != -1)
+      prog->newest_source = st.st_mtime;
+    for (; inc < inc_end; inc += strlen (inc) + 1)
+      if (stat (inc, &st) != -1 && st.st_mtime > prog->newest_source)
+        prog->newest_source = st.st_mtime;
+    for (i = 0; i < (int)(mem_block[A_INHERITS].current_size / sizeof (inherit_t)); i++)
+      if (INHERIT (i)->prog->newest_source > prog->newest_source)
+        prog->newest_source = INHERIT (i)->prog->newest_source;
+  }
+
   /* Format is now:
    * <short total-size-in-bytes> <short offset-to-line-info> <file info blob> <line info blob>
    */
